@@ -12,7 +12,8 @@ mv spare t/b                                   # b is now a copy of x
 wait
 grep -v '^#' out.txt
 bad=0
-if cmp -s t/b t/x && ! grep -qx "    $T/t/b" out.txt; then echo "DEFECT: t/b (identical to t/x and t/y at the time of the report) is missing from the report"; bad=1; fi
+# (since D148 a replaced path is left out WITH a warning, like a file whose length changed: that is accepted here)
+if cmp -s t/b t/x && ! grep -qx "    $T/t/b" out.txt && ! grep -q "t/b was replaced by another file" err.txt; then echo "DEFECT: t/b (identical to t/x and t/y at the time of the report) is missing from the report"; bad=1; fi
 if grep -qx "    $T/t/b" out.txt; then
   # b must be listed with x and y, not with a
   awk -v b="    $T/t/b" -v x="    $T/t/x" 'BEGIN{g=0} /^[0-9a-f]/{g++} $0==b{gb=g} $0==x{gx=g} END{exit !(gb==gx)}' out.txt || { echo "DEFECT: t/b is reported in another group than t/x"; bad=1; }
